@@ -67,7 +67,7 @@ Cost(gf) == /\ UNCHANGED xcfg
                         sigma2 |-> [pr \in Pairs |-> Sigma2(xcfg, pr)],
                         potsigma2 |-> [pr \in Pairs |-> IF xcfg.psig = "default" THEN 0 ELSE PotSigma2(xcfg, pr)],
                         ncore |-> [pr \in Pairs |-> NCore(xcfg, pr)]]
-XNext == \E gf \in {"zero", "small", "large"} : Cost(gf)
+XNext == \E gf \in {"zero", "small", "large", "huge"} : Cost(gf)     \* huge: |gamma| up to 2000 (gamma(0) of a large particle in a dense melt is ~1000)
 
 \* the composed term of a pair at a core point: closure branch with u := potential core branch / kT
 CoreTerm(p) == IF p.flag THEN ClosCore
